@@ -70,6 +70,7 @@ def nf_rule(ctx, rule, area, only=None, floor=None):
     """one obligation per function of the area; `only` restricts to function keys containing one of the substrings"""
     cur = area_current(ctx, area)
     ref = area_ref(area, ctx)
+    full_cur, full_ref = cur, ref
     if only is not None:
         sel = lambda k: any(s in k for s in only)
         cur = {k: v for k, v in cur.items() if sel(k)}
@@ -78,7 +79,7 @@ def nf_rule(ctx, rule, area, only=None, floor=None):
         ref, cur,
         lambda key, msg: ctx.ob(rule, "nf/%s/%s" % (area, key), True, msg),
         lambda key, kind, msg: ctx.ob(rule, "nf/%s/%s/%s" % (area, key, kind), False, msg, "%s %s" % (AREAS[area][0], key)),
-        crate_summaries(ctx, AREAS[area][0]))
+        crate_summaries(ctx, AREAS[area][0]), full_ref, full_cur)
     if floor is not None:
         ctx.floor(rule, "functions/" + area, len(cur), floor)
     ctx.analysed["nf_functions_" + area] = len(cur)
